@@ -173,8 +173,9 @@ def check_cases(ctx, cases, rep, tag="case"):
             if all(v != "nan" for v in xm) and [enc(v) for v in norm["x0"]] != xm:
                 rep.disagree("Val.validate ~ _bounds_check_ (x0)", f"{tag}: x0: model {xm} impl {norm['x0']}; {desc}", case)
         # ---- equivalent spellings define the same problem ----------------------------------------------------------
-        if rng.random() < (0.08 if ctx.quick else 0.3):
-            how = rng.choice(["row", "list", "tuple", "int", "scalar"])
+        int_ok = out == "ok" and all(c[k] is None or all(isinstance(v, float) and math.isfinite(v) and v == int(v) for v in c[k]) for k in ("x0", "lb", "ub", "plb", "pub"))
+        if int_ok or rng.random() < (0.08 if ctx.quick else 0.3):
+            how = "int" if int_ok and rng.random() < 0.7 else rng.choice(["row", "list", "tuple", "int", "scalar"])
             out2, norm2, n2, msg2 = impl(c, how)
             stats["spellings_checked"] += 1
             same = out2 == out and (norm2 is None or all(np.array_equal(np.array(norm2[k]), np.array(norm[k]), equal_nan=True) for k in ("lb", "ub", "plb", "pub")))
